@@ -396,7 +396,7 @@ theorem allWL_set {xs : Items} {i : Nat} {key : String} {c : T} (hx : allWL xs =
   · simp [h, hc]
 
 /-- a function that keeps nodes wrapped and notifies does so at any depth -/
-theorem modAt_sound {f : T → Except Err (T × Bool)}
+theorem modAt_sound {f : T → Except (Err × Bool) (T × Bool)}
     (hf : ∀ t t' n, allW t = true → f t = .ok (t', n) → allW t' = true ∧ n = true) :
     ∀ (p : List Step) (t t' : T) (n : Bool), allW t = true → modAt f p t = .ok (t', n) → allW t' = true ∧ n = true := by
   intro p
@@ -562,7 +562,7 @@ theorem applyD_notifies {cfg : Cfg} (hc : cfg.covers = true) {m : DMut} {t t' : 
     | sarr => simp [applyD] at h
     | tup => simp [applyD] at h
 
-theorem modAt_notifies {f : T → Except Err (T × Bool)}
+theorem modAt_notifies {f : T → Except (Err × Bool) (T × Bool)}
     (hf : ∀ t t' n, allW t = true → f t = .ok (t', n) → n = true) :
     ∀ (p : List Step) (t t' : T) (n : Bool), allW t = true → modAt f p t = .ok (t', n) → n = true := by
   intro p
